@@ -492,10 +492,10 @@ fn scenario(rt: &tokio::runtime::Runtime, ffi_rt: &FfiRuntime, line: &str) -> St
             if !ffi_connected(&c) {
                 return "FAIL:ffi never connected".into();
             }
-            let (rc1, s1) = unsafe { ffi_request(c.ch, op, 1000, n, 1500, false) };
+            let (rc1, s1) = unsafe { ffi_request(c.ch, op, 1000, n, 3000, false) };
             wait_until(Duration::from_secs(5), || peer.seen.load(Ordering::SeqCst) >= 1);
-            let (rc2, s2) = unsafe { ffi_request(c.ch, op, 1000, n, 1500, false) };
-            let (rc3, s3) = unsafe { ffi_request(c.ch, op, 1000, n, 1500, false) };
+            let (rc2, s2) = unsafe { ffi_request(c.ch, op, 1000, n, 3000, false) };
+            let (rc3, s3) = unsafe { ffi_request(c.ch, op, 1000, n, 3000, false) };
             let e3 = slot_events(s3, Duration::from_secs(5));
             let pending = format!("{}/{}", s1.lock().unwrap().events.len(), s2.lock().unwrap().events.len());
             unsafe { ffi::rodbus_client_channel_destroy(c.ch) };
